@@ -46,7 +46,7 @@ struct W {
 	long next_id = 1;
 	std::string trace;
 	uint64_t h = 0;
-	bool f_replace_shared = false, f_put_idx_occupied = false, f_failed_transfer = false, f_cascade = false, f_ud = false, f_copy = false, f_ptr = false, f_patch = false;
+	bool f_replace_shared = false, f_put_idx_occupied = false, f_failed_transfer = false, f_cascade = false, f_ud = false, f_copy = false, f_ptr = false, f_patch = false, f_fill = false;
 	W(Ctx &cx, Choices &cc) : ctx(cx), c(cc) {}
 	~W()
 	{
@@ -291,8 +291,9 @@ struct W {
 			return;
 		json_object *parent = hs[pi].p;
 		long pid = hs[pi].id;
-		static const char *keys[] = {"a", "b", "c", "", "a/b", "k~", "longer key name to be duplicated"};
-		const char *key = keys[c.coin(70) ? c.pickn(3) : c.pickn(7)];
+		static const char *keys[] = {"a", "b", "c", "", "a/b", "k~", "longer key name to be duplicated", "k07", "k08", "k09", "k10", "k11", "k12", "k13",
+		                             "k14", "k15", "k16", "k17", "k18", "k19", "k20", "k21", "k22", "k23", "k24", "k25"};
+		const char *key = keys[c.coin(55) ? c.pickn(3) : c.coin(50) ? c.pickn(7) : c.pickn(26)];
 		json_object *existing = nullptr;
 		bool had = json_object_object_get_ex(parent, key, &existing);
 		if (c.coin(8))
@@ -315,7 +316,10 @@ struct W {
 		if (had && existing && find(existing) >= 0 && hs[find(existing)].owned > 0)
 			f_replace_shared = true;
 		int r;
-		if (!had && c.coin(30))
+		if (c.coin(20))
+			// the key literals above have static storage: the documented precondition of CONSTANT_KEY
+			r = json_object_object_add_ex(parent, key, val, JSON_C_OBJECT_ADD_CONSTANT_KEY | (!had && c.coin(50) ? JSON_C_OBJECT_ADD_KEY_IS_NEW : 0));
+		else if (!had && c.coin(30))
 			r = json_object_object_add_ex(parent, key, val, JSON_C_OBJECT_ADD_KEY_IS_NEW);
 		else
 			r = json_object_object_add(parent, key, val);
@@ -325,6 +329,33 @@ struct W {
 		if (!null_value)
 			hs[find(val)].owned--;
 		settle("object_add");
+	}
+	// grow one object past a table resize, mixing keys the table must free (duplicated) with keys it must not (constant)
+	void op_object_fill()
+	{
+		int pi = pick([](const Handle &x) { return json_object_get_type(x.p) == json_type_object; });
+		if (pi < 0)
+			return;
+		json_object *parent = hs[pi].p;
+		long pid = hs[pi].id;
+		static const char *keys[] = {"f00", "f01", "f02", "f03", "f04", "f05", "f06", "f07", "f08", "f09", "f10", "f11", "f12", "f13", "f14", "f15",
+		                             "f16", "f17", "f18", "f19", "f20", "f21", "f22", "f23", "f24", "f25", "f26", "f27", "f28", "f29", "f30", "f31"};
+		size_t n = (size_t)c.range(6, 32), nconst = 0, ndup = 0;
+		for (size_t i = 0; i < n; i++)
+		{
+			json_object *v = json_object_new_int64((int64_t)i);
+			long id = track(v);
+			bool konst = c.coin(35);
+			int r = konst ? json_object_object_add_ex(parent, keys[i], v, JSON_C_OBJECT_ADD_CONSTANT_KEY) : json_object_object_add(parent, keys[i], v);
+			if (r != 0)
+				ctx.fail("retval", "object_add returned " + str(r));
+			(konst ? nconst : ndup)++;
+			hs.push_back({v, id, 0});
+		}
+		log("object_fill #" + str(pid) + " with " + str(n) + " members (" + str(nconst) + " constant keys)");
+		if (json_object_object_length(parent) > 11 && nconst && ndup)
+			f_fill = true;
+		settle("object_fill");
 	}
 	void op_object_del()
 	{
@@ -700,7 +731,7 @@ void run_case(Choices &c, Ctx &ctx)
 		for (size_t i = 0; i < nops; i++)
 		{
 			SpanGuard g(c);
-			switch (c.pick({12, 5, 7, 16, 6, 18, 4, 5, 6, 5}))
+			switch (c.pick({12, 5, 7, 16, 6, 18, 4, 5, 6, 5, 2}))
 			{
 			case 0: w.create(); break;
 			case 1: w.op_get(); break;
@@ -711,6 +742,7 @@ void run_case(Choices &c, Ctx &ctx)
 			case 6: w.op_userdata(); break;
 			case 7: w.op_deep_copy(); break;
 			case 8: w.op_pointer_set(); break;
+			case 10: w.op_object_fill(); break;
 			default: w.op_patch(); break;
 			}
 		}
@@ -723,6 +755,8 @@ void run_case(Choices &c, Ctx &ctx)
 			ctx.label("failed_transfer");
 		if (w.f_cascade)
 			ctx.label("cascade");
+		if (w.f_fill)
+			ctx.label("object_resized_with_constant_and_duplicated_keys");
 		if (w.f_ud)
 			ctx.label("userdata_replaced");
 		if (w.f_copy)
